@@ -103,7 +103,6 @@ structure DS where
   ecfg : EnvCfg := {}
   mach : Option Juno.C12.Machine := none
   kAtHeight : Nat := 0   -- Value() calls at the machine's current height so far
-  logFutureQuorum : Bool := false  -- proposed-fixes/C13-future-quorum-precommit-not-logged.diff applied in /repo
   deriving Inhabited
 
 /-- `Env` of C12's model for the next step: validators from the configuration; `appValue c` is what
@@ -146,12 +145,7 @@ def machStep (replaying : Bool) (s : DS) (i : Input) : DS × String :=
     let r := M.step m i
     let m' := r.1
     let k' := if m'.state.height == m.state.height then s.kAtHeight + (m'.valueCalls - m.valueCalls) else 0
-    -- C12's model transcribes the code without the proposed fix; with it the quorum-completing
-    -- future precommit is logged as well (the harness probes the real machine and says which)
-    let acts := match r.2, i with
-      | [.triggerSync a b], .precommit h rd sd id =>
-        if s.logFutureQuorum then [.writeWAL (.precommit h rd sd id), .triggerSync a b] else r.2
-      | _, _ => r.2
+    let acts := r.2
     let effs := effectsOf replaying (acts.filter (fun a => !isSync a))
     let flag := if committed acts then "1" else "0"
     ({ s with trace := s.trace ++ effs, cur := applyEffects s.cur effs, mach := some m', kAtHeight := k' },
@@ -186,7 +180,6 @@ def step1 (s : DS) (line : String) : DS × String :=
     match me.toNat?, pmul.toNat?, parseNats powers, parseNats tbl with
     | some me, some pmul, some powers, some tbl => ({ s with ecfg := ⟨me, pmul, powers, tbl⟩ }, "ok")
     | _, _, _, _ => (s, "bad-op")
-  | ["opt", "log-future-quorum", v] => ({ s with logFutureQuorum := v == "1" }, "ok")
   | ["boot", h] =>
     match h.toNat? with
     | some h =>
